@@ -5,30 +5,42 @@ import vlib
 MANIFEST = dict(
     module="SaveIO", ref="§5 C05",
     text="SaveIO.tla is the save protocol (mkdir / create / serialise / per-entry header and data through a compressor "
-         "and a buffered writer / zip close / file close / return) over a target that refuses bytes beyond an offset, "
-         "refuses all bytes, or cannot be created. TLC checks exhaustively that the intended protocol returns nil only "
-         "for a complete closed file, equals the closed-form oracle, and that a fault leaving more than the tail missing "
-         "surfaces before close; the protocol as built (deferred closes, errors dropped) is checked too and TLC must "
-         "produce the counterexample. TLC-generated scenarios (document programs x entry point x target class x fault "
-         "plan) are executed on the real library with RLIMIT_FSIZE = k for every offset k, /dev/full and uncreatable "
-         "targets; SaveIO_Trace.tla judges every call: nil => readable zip whose parts equal ToBytes-just-before.",
+         "and a buffered writer, optionally a write-behind stage below it / zip close / stage close / file close / return) "
+         "over a target that refuses bytes beyond an offset, refuses all bytes, or cannot be created, named by a path string "
+         "whose spelling is part of the target class ('..', '.', doubled slashes, symbolic links on the way or as the last "
+         "component; a small model of OS resolution vs lexical cleaning says where each string leads). TLC checks "
+         "exhaustively that the intended protocol returns nil only for a complete closed file AT THE PLACE THE GIVEN STRING "
+         "LEADS TO, equals the closed-form oracle, and that a fault leaving more than the tail missing surfaces before close; "
+         "three deviating protocols are checked too: as built (deferred closes, errors dropped: TLC must produce the "
+         "counterexample), 'cleaned' (path cleaned lexically first: wrong exactly for '..' after a symlink) and 'uncollected' "
+         "(the stage's result is not collected at close: loses exactly faults in the last chunk). TLC-generated scenarios "
+         "(document programs x entry point x target class x fault plan) are executed on the real library with RLIMIT_FSIZE = k "
+         "for every offset k, /dev/full, uncreatable targets and every path spelling; documents range from 3 KB to 600 KB and "
+         "come from New() or from opened packages (minimal, rich, and 'odd': zero-length / one-byte / incompressible parts, "
+         "unusual part names); a plan 'conc' repeats the save while 1..7 other goroutines save other documents to other paths. "
+         "SaveIO_Trace.tla judges every call on its own: nil => the very path string handed to the call reads back as a zip "
+         "whose parts equal ToBytes-just-before.",
     technique="TLA+ spec SaveIO; TLC exhaustive MC (two protocol variants) + TLC-generated scenarios replayed with a "
               "write fault at every byte offset + TLC trace judge",
 )
 
 LEVEL = "model_checking"
-RULE = ("scenarios = content operations followed by saves, enumerated by TLC (BFS over the content alphabet, entry point "
-        "in {Save, ConvertFile, BatchConvert}, target class in {new nested dir, existing file, /dev/full, unwritable dir, "
-        "read-only file, parent is a file, path is a directory}); a save with plan 'sweep' is executed once per fault offset "
-        "k (RLIMIT_FSIZE = k, every k in 0..N+2 for small packages, evenly spaced + edges + buffer boundaries for large "
-        "ones) and once more without a limit; every call is one judged observation")
+RULE = ("scenarios = content operations followed by saves, enumerated by TLC (BFS over the content alphabet incl. origins "
+        "opened-minimal / opened-rich / opened-odd and sizes up to 600 KB, entry point in {Save, ConvertFile, BatchConvert}, "
+        "target class in {new nested dir, existing file, re-save, /dev/full, unwritable dir, read-only file, parent is a file, "
+        "path is a directory, relative path, a/../b, .//a/./b//, via a symlinked directory, symlink/.., symlink to an existing "
+        "file, dangling symlink}); a save with plan 'sweep' is executed once per fault offset k (RLIMIT_FSIZE = k, every k in "
+        "0..N+2 for small packages, evenly spaced + edges + buffer boundaries for large ones) and once more without a limit; "
+        "a save with plan 'conc' is executed `rounds` times by its own goroutine while 1..7 other goroutines save documents "
+        "of their own to their own paths, free-running; every call is one judged observation, read back through the same "
+        "path string that was handed to the call")
 
-GROUPS = ["sweep-all", "sweep-large", "targets", "md-targets", "md-sweep", "resave", "opened"]
+GROUPS = ["sweep-all", "sweep-large", "targets", "md-targets", "md-sweep", "resave", "opened", "odd-sweep", "spelt-sweep", "conc"]
 
 
 def gencfg(ctx, name, groups):
     return ctx.cfg(name, "SpecGen", {
-        "MaxEnt": 1, "MaxDat": 1, "DirSizes": {1}, "BufSizes": {2}, "MCVariants": {"intended"}, "MCTargets": {"newdir"},
+        "MaxEnt": 1, "MinDat": 1, "MaxDat": 1, "DirSizes": {1}, "BufSizes": {2}, "MCVariants": {"intended"}, "MCTargets": {"newdir"},
         "GroupNames": set(groups)}, invariants=["Emit"])
 
 
@@ -95,15 +107,23 @@ def pipeline(ctx, replay_case=None):
     if replay_case is not None:
         judge_obs(ctx, ctx.run_exec("saveio", [replay_case], "replay", shards=1), "replay")
         return ctx.finish(LEVEL, RULE)
-    ctx.tlc_mc("SaveIO_MC.tla", "SaveIO_MC_quick.cfg" if q else "SaveIO_MC_thorough.cfg", timeout=600)
+    ctx.tlc_mc("SaveIO_MC.tla", "SaveIO_MC_quick.cfg" if q else "SaveIO_MC_thorough.cfg", timeout=900)
+    if not q:
+        # zero-length entries (a stored empty part) and every path spelling, on smaller layouts
+        ctx.tlc_mc("SaveIO_MC.tla", "SaveIO_MC_thorough0.cfg", timeout=600)
     expect_counterexample(ctx)
     ctx.assumptions.append("fault model: RLIMIT_FSIZE = k makes the write crossing byte k of a regular file fail (SIGXFSZ ignored); "
                            "/dev/full refuses every byte; failures of close()/fsync() not caused by a short write are modelled "
                            "(closeFault) but not injected")
+    ctx.assumptions.append("path spellings are laid out in a scratch tree with relative symbolic links; 'relative' changes the working "
+                           "directory of the harness process around the call (one behaviour at a time per process); BatchConvert "
+                           "composes the file path itself (filepath.Join cleans it), so it is not combined with the spelt targets")
+    ctx.assumptions.append("plan 'conc' is free-running (no forced schedule: Save has no hook points): what it can show depends on "
+                           "the interleavings the scheduler happens to produce; every call in it is still judged exactly")
     ctx.assumptions.append("phase labels in signatures assume archive/zip buffers 4096 bytes and compress/flate holds back at most ~64 KiB")
     pre = "q-" if q else "t-"
     # every scenario of the tier's groups (SaveIO_MC.tla, AllGroups), enumerated breadth-first ...
-    cases = ctx.tlc_gen("SaveIO_MC.tla", gencfg(ctx, "gen_bfs.cfg", [pre + g for g in GROUPS]), "bfs")
+    cases = ctx.tlc_gen("SaveIO_MC.tla", gencfg(ctx, "gen_bfs.cfg", [pre + g for g in GROUPS + ([] if q else ["sweep-huge", "opened-odd"])]), "bfs")
     # ... plus seeded random longer documents, swept
     rnd = ctx.tlc_gen("SaveIO_MC.tla", gencfg(ctx, "gen_sim.cfg", [pre + "random"]), "sim", mode="sim",
                       num=3 if q else 12, depth=12, limit=12 if q else 80)
